@@ -226,9 +226,20 @@ func (c *pipeCase) run() string {
 // generators
 
 // genStream makes one channel's ground-truth stream of n samples.
+// genStream keeps the original signature (other generators use it).
 func genStream(r *Rng, n int, nsamp int, signed bool) []dastard.RawType {
+	return genStreamHot(r, n, nsamp, signed, false)
+}
+
+func genStreamHot(r *Rng, n int, nsamp int, signed bool, hot bool) []dastard.RawType {
 	g := make([]dastard.RawType, n)
 	kind := r.Intn(7)
+	if hot { // edge-rich streams (C02 / C08 profiles)
+		kind = r.Pick(1, 2, 6, 7, 7, 7, 3, 5, 0)
+	}
+	rising := 0      // kind 7: samples of rise left
+	riseStep := 0.0
+	gapLeft := 0
 	base := r.Pick(1000, 5000, 30000, 32700, 60000, 100)
 	if signed {
 		base = r.Pick(0, 100, 65000, 32000, 33000)
@@ -258,6 +269,20 @@ func genStream(r *Rng, n int, nsamp int, signed bool) []dastard.RawType {
 				pulse += float64(r.Pick(150, 400, -200))
 			}
 			pulse *= 0.5
+		case 7: // pulses with a finite rise time (monotone runs), sometimes in close pairs
+			if rising > 0 {
+				pulse += riseStep
+				rising--
+			} else {
+				pulse *= decay
+				if gapLeft > 0 {
+					gapLeft--
+				} else if r.Intn(max1(nsamp/3)) == 0 {
+					rising = r.Range(1, 5)
+					riseStep = float64(r.Pick(60, 120, 350, 1500) * r.Pick(1, 1, 1, -1))
+					gapLeft = r.Pick(0, 0, 1, 2, nsamp/2, nsamp)
+				}
+			}
 		}
 		v := int(level+pulse) + r.Range(-noise, noise)
 		v = ((v % 65536) + 65536) % 65536
@@ -368,12 +393,15 @@ func genPipe(r *Rng, tier string, profile string) *pipeCase {
 		c.signed[ch] = r.Chance(30)
 	}
 	total := r.Range(c.nsamp, 12*c.nsamp)
-	if r.Chance(20) {
+	if profile != "C01" {
+		total = r.Range(3*c.nsamp, 30*c.nsamp)
+	}
+	if r.Chance(20) && (profile == "C01" || r.Chance(40)) {
 		total = r.Range(1, 3*c.nsamp)
 	}
 	c.streams = make([][]dastard.RawType, c.nch)
 	for ch := range c.streams {
-		c.streams[ch] = genStream(r, total, c.nsamp, c.signed[ch])
+		c.streams[ch] = genStreamHot(r, total, c.nsamp, c.signed[ch], profile != "C01" && r.Chance(80))
 	}
 	// start of the run: restored settings and/or a ConfigureTriggers request
 	c.saved = map[int]tsSpec{}
@@ -456,6 +484,31 @@ func genPipe(r *Rng, tier string, profile string) *pipeCase {
 	return c
 }
 
+// oneBlock is the same case with all data blocks merged into a single block (requests that
+// precede the first block are kept; C08 cases have none in between).
+func (c *pipeCase) oneBlock() *pipeCase {
+	d := *c
+	d.ops = nil
+	var merged *pipeOp
+	for _, op := range c.ops {
+		if op.kind != "B" {
+			d.ops = append(d.ops, op)
+			continue
+		}
+		if merged == nil {
+			m := pipeOp{kind: "B", first: op.first, t0: op.t0, data: make([][]dastard.RawType, c.nch)}
+			merged = &m
+		}
+		for ch := range op.data {
+			merged.data[ch] = append(merged.data[ch], op.data[ch]...)
+		}
+	}
+	if merged != nil {
+		d.ops = append(d.ops, *merged)
+	}
+	return &d
+}
+
 func pipeCount(quick, thorough int) func(string) int {
 	return func(tier string) int {
 		if tier == "thorough" {
@@ -469,5 +522,23 @@ func init() {
 	caseGens["C01"] = caseGen{count: pipeCount(400, 12000), gen: func(r *Rng, tier string, idx int) (string, func() string) {
 		c := genPipe(r, tier, "C01")
 		return c.input(), c.run
+	}}
+	caseGens["C02"] = caseGen{count: pipeCount(500, 12000), gen: func(r *Rng, tier string, idx int) (string, func() string) {
+		c := genPipe(r, tier, "C02")
+		return c.input(), c.run
+	}}
+	caseGens["C08"] = caseGen{count: pipeCount(500, 12000), gen: func(r *Rng, tier string, idx int) (string, func() string) {
+		c := genPipe(r, tier, "C08")
+		return c.input(), func() string {
+			many := c.run()
+			if strings.HasPrefix(many, "PANIC") {
+				return many
+			}
+			one := c.oneBlock().run()
+			if strings.HasPrefix(one, "PANIC") {
+				return one
+			}
+			return many + " ONE " + one
+		}
 	}}
 }
